@@ -10,7 +10,7 @@ import re
 import terms as tm
 import nf
 import cfgparse
-from lift import canon_float, strip_ref
+from lift import canon_float, strip_ref, rounding_rewrite
 from common import api_roots, vec_info, tydef, leaves_plain, hidden_offsets, TRUSTED_COMMON
 from runner import norm_def_path, REPO
 from interp import Agg
@@ -159,7 +159,7 @@ def check_fused(ctx, cfg, F, expect_fused_in_mul_add_kernel):
 def canon_c07(t):
     """equivalences C07 grants on top of C01's: lane masks compare as their boolean; min/max trees are association-free;
     a sign transfer by xor is multiplication by +-1 decided at dot < 0 (agreement up to the threshold itself)"""
-    t = canon_float(t)
+    t = canon_float(rounding_rewrite(t))
     memo = {}
 
     def go(x):
@@ -329,7 +329,7 @@ def run(ctx):
                 if same:
                     ctx.holds('R-SIB-REAL', pair, key)
                 elif mname in OPAQUE_FNS or (tn == 'Quat' and mname in ('slerp', 'rotate_towards')):
-                    ctx.undecided('R-SIB-REAL', pair, key, 'opaque rounding algorithm on the SIMD side (see C01)')
+                    ctx.undecided('R-SIB-REAL', pair, key, 'rounding / sine approximation algorithm of a shape the recognisers do not know on the SIMD side (see C01)')
                 else:
                     ctx.violation('R-SIB-REAL', pair, key, {'file': it['file'], 'line': it['line'], 'problem': 'output %d is a different real function / guard than in the scalar-math build' % which[0],
                                                              'simd': which[1], 'scalar': which[2]})
